@@ -60,6 +60,12 @@ class BaseServer(socketserver.BaseServer):
         """
         if self.context:
             if sock.recv(1, socket.MSG_PEEK) == b"\x16":
+                if self.config.has_option("pygopherd", "timeout"):
+                    # SO_RCVTIMEO/SO_SNDTIMEO do not bound a TLS handshake or a
+                    # TLS read (the ssl module waits for the socket again after
+                    # EAGAIN), so a silent TLS client would keep its handler
+                    # for ever: give the connection a timeout of its own.
+                    sock.settimeout(self.config.getint("pygopherd", "timeout"))
                 return self.context.wrap_socket(sock, server_side=True)
         return sock
 
@@ -119,7 +125,13 @@ class GopherRequestHandler(socketserver.StreamRequestHandler):
     server: BaseServer
 
     def handle(self) -> None:
-        request = self.rfile.readline().decode(errors="surrogateescape")
+        try:
+            request = self.rfile.readline().decode(errors="surrogateescape")
+        except OSError as e:
+            # The client went silent (timeout) or away before a request line
+            # arrived: nothing to answer.
+            GopherExceptions.log(e, None, None)
+            return
 
         protohandler = ProtocolMultiplexer.getProtocol(
             request, self.server, self, self.rfile, self.wfile, self.server.config
